@@ -429,6 +429,32 @@ func execDb(args []string) (out string) {
 		}
 		return r
 	}
+	// results are values: byte slices handed out by a transaction must not change
+	// for as long as it is open, whatever happens next
+	type hold struct {
+		tx       string
+		ref, cpy []byte
+	}
+	var holds []hold
+	keep := func(tx string, b []byte) []byte {
+		if len(b) > 0 {
+			holds = append(holds, hold{tx, b, append([]byte{}, b...)})
+		}
+		return b
+	}
+	aliased := func(tx string) bool {
+		bad := false
+		var rest []hold
+		for _, h := range holds {
+			if h.tx != tx {
+				rest = append(rest, h)
+			} else if string(h.ref) != string(h.cpy) {
+				bad = true
+			}
+		}
+		holds = rest
+		return bad
+	}
 	outs := make([]string, 0, len(args))
 	for _, op := range args[2:] {
 		f := strings.Split(op, ":")
@@ -442,9 +468,17 @@ func execDb(args []string) (out string) {
 			o = errStr(err)
 		case "co":
 			// the handle is kept: later operations on it must report a closed transaction
+			bad := aliased(f[1])
 			o = errStr(s.txs[f[1]].Commit())
+			if bad {
+				o = "ALIAS:" + o
+			}
 		case "rb":
+			bad := aliased(f[1])
 			o = errStr(s.txs[f[1]].Rollback())
+			if bad {
+				o = "ALIAS:" + o
+			}
 		case "p":
 			if b := s.bucket(s.txs[f[1]], f[2]); b == nil {
 				o = "nobucket"
@@ -455,7 +489,7 @@ func execDb(args []string) (out string) {
 			if b := s.bucket(s.txs[f[1]], f[2]); b == nil {
 				o = "nobucket"
 			} else {
-				o = valStr(b.Get(unhx(f[3])))
+				o = valStr(keep(f[1], b.Get(unhx(f[3]))))
 			}
 		case "d":
 			if b := s.bucket(s.txs[f[1]], f[2]); b == nil {
@@ -537,7 +571,7 @@ func execDb(args []string) (out string) {
 			if err != nil {
 				o = errStr(err)
 			} else {
-				o = hx(b)
+				o = hx(keep(f[1], b))
 			}
 		case "fh":
 			b, err := s.txs[f[1]].FetchBlockHeader(blockHash(atoi(f[2])))
@@ -553,7 +587,7 @@ func execDb(args []string) (out string) {
 			if err != nil {
 				o = errStr(err)
 			} else {
-				o = hx(b)
+				o = hx(keep(f[1], b))
 			}
 		case "fks":
 			var hs []chainhash.Hash
